@@ -330,6 +330,10 @@ export t = FMT.to_string r
 export r2 = FMT.from_string t
 ";
 
+pub fn eval_text_pub(rt: &mut Rt, text: &str, fmt: &str) -> Eval {
+    eval_text(rt, text, fmt)
+}
+
 fn eval_text(rt: &mut Rt, text: &str, fmt: &str) -> Eval {
     let mut ev = Eval::pass(true).class(intern(&format!("corrupt:{fmt}")));
     rt.koto.exports_mut().clear();
